@@ -4,9 +4,10 @@
 //!     returns `Err` and the sink took <= b bytes, which are a prefix of the serialization.
 //! (2) The buffered file writers against a failing file (ghost file under Kani, real
 //!     RLIMIT_FSIZE natively): whenever the fault leaves the file incomplete, creation returns
-//!     `Err`, or a push panics as documented ("May panic from I/O errors" -- that path is CUT
-//!     where the real code calls `unwrap` on the error, see `stubs_file::unwrap_failed_cut`),
-//!     or `close()` returns `Err`; `close()` never returns `Ok` for an incomplete file.
+//!     `Err` (`create_fail`), or a push panics as documented ("May panic from I/O errors" -- that
+//!     path is CUT where the real code calls `unwrap` on the error, `stubs_file::unwrap_failed_cut`),
+//!     or `close()` returns `Err`; `close()` never returns `Ok` for an incomplete file
+//!     (`int_fail`, `raw_fail`); dropping a writer whose close failed does not panic.
 use crate::c05::{any_int, any_raw};
 use crate::c12::{same, Env, Snap, BIT, CAP};
 use crate::sym;
